@@ -11,6 +11,7 @@ From Coq Require Import List String Bool Arith ZArith.
 From Helm Require Import Common.Assoc Engine.Types Engine.Eff Engine.Ops Engine.OpsFix
                          Engine.Decisions Engine.DecisionsModel Engine.DecisionsOps Engine.DecisionsProofs
                          Gen.ActionDecisions.
+From Helm Require Values.Reuse Values.ReuseDecisions.
 Import ListNotations.
 Local Open Scope string_scope.
 
@@ -23,7 +24,7 @@ Theorem decisions_same_shape :
 Proof. exact decisions_shape. Qed.
 Print Assumptions decisions_same_shape.
 
-(* 2. Meaning.  For every site that the table ties to a condition c of the model (41 of 59;
+(* 2. Meaning.  For every site that the table ties to a condition c of the model (43 of 61;
       the others are listed with the reason why they lie outside the model): the Go source
       has a condition at that position of that function, and FOR ALL environments m -- every
       status, event, policy, boolean, every integer (no window; [env_wf]: only the values of
@@ -113,19 +114,45 @@ Qed.
 Print Assumptions hooks_branch_on_sites.
 
 (* ByRevision.Less is the order of the model's sort (insert_by_rev) and of its "newest
-   revision" (max_rev_of); the keep filter of uninstall is filterManifestsToKeep's test *)
+   revision" (max_rev_of); the keep filter of uninstall is filterManifestsToKeep's test; the
+   ownership check (Types.owned_by) is validate.go's three requireValue *)
 Theorem orders_and_filters_on_sites :
-  forall (r x m : release) (rs : res),
+  forall (r x m : release) (rs : res) (rel_name rel_ns : string) (f : fields),
     Nat.leb (rev r) (rev x) = negb (rev_less x r) /\
     Nat.ltb (rev m) (rev r) = rev_less m r /\
-    manifest_keep rs = manifest_keep_d rs.
-Proof. intros. exact (conj (insert_by_rev_less r x) (conj (max_rev_of_less m r) (manifest_keep_is rs))). Qed.
+    manifest_keep rs = manifest_keep_d rs /\
+    owned_by rel_name rel_ns f
+    = require_value_d managed_by_key "Helm" f && require_value_d rel_name_key rel_name f
+      && require_value_d rel_ns_key rel_ns f.
+Proof.
+  intros. exact (conj (insert_by_rev_less r x) (conj (max_rev_of_less m r) (conj (manifest_keep_is rs)
+                (owned_by_is rel_name rel_ns f)))).
+Qed.
 Print Assumptions orders_and_filters_on_sites.
+
+(* C13's model of "which revision an upgrade carries values forward from"
+   (Values.Reuse.current_idx, over the statuses deployed / superseded / failed) decides by the
+   same named conditions of Upgrade.prepareUpgrade as Engine/Ops.upgrade does *)
+Theorem reuse_current_branches_on_sites :
+  forall (sts : list Values.Reuse.rstat) (lastst : Values.Reuse.rstat),
+    nth_error sts (List.length sts - 1) = Some lastst ->
+    Values.Reuse.current_idx sts =
+      if c_up_pending (Values.ReuseDecisions.env_last lastst) then None
+      else if c_up_last_deployed (Values.ReuseDecisions.env_last lastst) then Some (List.length sts)
+      else match Values.Reuse.deployed_idx_from 1 sts with
+           | Some i => Some i
+           | None =>
+               if c_up_fallback (set_err "Deployed is Is driver.ErrNoDeployedReleases" true
+                                         (Values.ReuseDecisions.env_last lastst))
+               then Some (List.length sts) else None
+           end.
+Proof. exact Values.ReuseDecisions.current_idx_on_sites. Qed.
+Print Assumptions reuse_current_branches_on_sites.
 
 (* 4. Not vacuous, not syntactic. *)
 Example decisions_site_counts :
-  List.length (List.concat (map snd sites)) = 59 /\
-  List.length (filter modelled (List.concat (map snd sites))) = 41 /\ List.length sites = 31.
+  List.length (List.concat (map snd sites)) = 61 /\
+  List.length (filter modelled (List.concat (map snd sites))) = 43 /\ List.length sites = 32.
 Proof. exact site_counts. Qed.
 Print Assumptions decisions_site_counts.
 
